@@ -71,8 +71,10 @@ def _scaled_ok(model, xi, ci, x_err, y_err, nx, ny, tau):
         smax, smin = float(sv.max()), float(sv.min())
     except Exception:
         return False, None
-    if not (smin > 0 and np.isfinite(smax)):
-        return True, "singular"     # saturated / autograd artefact: not decidable
+    if not (smin > 1e-8 and smax < 1e8):
+        # saturated / autograd artefact / a stretch or compression beyond 1e8: some intermediate value has lost
+        # >= 8 of its 16 digits, a 1e-7 verdict is not decidable in float64
+        return True, "singular"
     ok_x = x_err <= tau * (1 + nx + ny / smin)
     ok_y = y_err <= tau * (1 + ny + smax * nx)
     return bool(ok_x or ok_y), {"smax": smax, "smin": smin}
@@ -147,6 +149,26 @@ def run_case(case):
             continue
         if not _finite(xi_, lad_i):
             bad = (~torch.isfinite(xi_)).reshape(B, -1).any(1) | ~torch.isfinite(lad_i)
+            if label == "from_x":
+                # saturated items: a forward log-det this negative means some derivative is below ~1e-11, the output
+                # has collapsed onto a neighbouring value in float64 and no inverse can recover x
+                sat = lad_f < -(25.0 + 3.0 * x[0].numel())
+                # ... or y has collapsed: moving x by 1e-6 relative does not move some element of y at all
+                try:
+                    with torch.no_grad():
+                        xp = x + 1e-6 * (1 + x.abs())
+                        if me["dom_in"][0] == "box":
+                            xp = torch.where(xp > me["dom_in"][2], x - 1e-6 * (1 + x.abs()), xp)
+                        yp, _ = model(xp, ctx)
+                    flat = ((yp == yy) & (xp != x)).reshape(B, -1).any(1) if yp.shape == yy.shape else torch.zeros(B, dtype=torch.bool)
+                    sat = sat | flat
+                except Exception:
+                    pass
+                if (bad & sat).any():
+                    r.count("skipped_saturated_items", int((bad & sat).sum()))
+                bad = bad & ~sat
+                if not bad.any():
+                    continue
             k = int(bad.nonzero()[0])
             emit(r, "nonfinite", "%s inverse returns non-finite numbers" % fam, cubic_nu, policy=pol, world=world,
                  cfg=cfg, y=yy[k].reshape(-1)[:8], direction=label)
@@ -217,7 +239,10 @@ def run_case(case):
                     # slope: not decidable item-wise (the spline-function driver decides knots element-wise)
                     r.count("kink_items_undecided")
                     a = 0.0
-            if a > allowed and float(lad_f2[i]) > -20:
+            # cancellation inside the transformers (slopes from differenced cumulative sums): relative error ~eps/derivative
+            allowed = allowed + 1e-13 * float(np.exp(min(abs(float(lad_f2[i])), 60.0)))
+            sat_lim = 60.0
+            if a > allowed and abs(float(lad_f2[i])) < sat_lim:
                 # conditioning: the inverse's own backward error (~1e-13 relative) moves x' by err/sigma_min, and the
                 # log-det can be very sensitive to x' (strongly non-uniform bins): estimate both numerically
                 try:
@@ -239,7 +264,13 @@ def run_case(case):
                         r.count("antisymmetry_sensitivity_scaled")
                 except Exception:
                     pass
-            if a > allowed and float(lad_f2[i]) > -20:
+            if a > allowed and (world == "f32" or ("composite" in me["tags"] and pol in ("extreme", "randn3"))):
+                # float32 accuracy of the log-det is C19's clause (decided against a float64 twin); composites under
+                # strongly non-uniform parameters hide ill-conditioned intermediates behind a moderate total log-det
+                # (their parts are judged individually here, their bookkeeping by C08)
+                r.count("antisymmetry_not_judged")
+                a = 0.0
+            if a > allowed and abs(float(lad_f2[i])) < sat_lim:
                 emit(r, "antisymmetry", "%s inverse logabsdet != -forward logabsdet at inverse(y)" % fam, cubic_nu,
                      policy=pol, world=world, cfg=cfg, inv=float(lad_i[i]), fwd_at_inverse=float(lad_f2[i]),
                      direction=label)
@@ -341,7 +372,8 @@ def run_spline_fn(case):
             la = fn(inputs=xa, inverse=False, **params, **kw)[1]
             lb = fn(inputs=xb, inverse=False, **params, **kw)[1]
         sens = ((la - lb).abs() / (2 * dlt)).nan_to_num(0.0)
-        tol_a = 1e-7 * (1 + lad_f.abs()) + sens * 1e-13 * (y.abs() + wy) / torch.clamp(slope, min=1e-12) + \
+        tol_a = 1e-7 * (1 + lad_f.abs()) + 1e-13 * torch.exp(lad_f.abs().clamp(max=60.0)) + \
+            sens * 1e-13 * (y.abs() + wy) / torch.clamp(slope, min=1e-12) + \
             (1e-3 * wy / torch.clamp(slope, min=1e-12) if fam == "cubic" else 0.0)
         bad = fin & torch.isfinite(lad_f) & (a > tol_a)
         if bad.any() and fam == "linear" or (bad.any() and tails):
